@@ -12,7 +12,7 @@ RULE = ("(a) exhaustive small scope: all 256 subsets of an 8-key universe as dic
         "{1,64,127} x all 8/16-bit values, boundary + random 32-bit values, wrong-width accessors; (e) buffer access with every length "
         "0..4000 on domains/strings of 8 sizes in exact-size user buffers; (f) continued access (COObjRd/WrBufStart + ...Cont) in random chunks that run up to and beyond the end of exact-size domains/strings; distinct non-trivial = lookups with a hit + typed + buffer cases")
 ASSUMPTIONS = ["dictionaries are sorted, unique and end-marked (precondition in the statement)",
-               "buffer API used on domains and strings only"]
+               "buffer API: content and length checked on domains and strings; on the CiA 301 system entries only that no more than the requested length is moved (exact-size heap blocks under ASan)"]
 VARIANTS = [("asan", ("dictcheck.c",), "dictcheck", {"extra_flags": "-finstrument-functions"})]
 
 
@@ -51,7 +51,7 @@ def work(item, ctx):
         sig = S.parse_crash(p.stderr, p.returncode)
         res.violation("c06/crash/" + sig, "engine died: " + sig, log=[" ".join(args)], detail=p.stderr[-2500:])
     c = res.counters
-    res.evals = c["lookups"] + c["typed_cases"] + c["buffer_cases"] + c["init_dictionaries"] + c["chunked_cases"]
+    res.evals = c["lookups"] + c["typed_cases"] + c["buffer_cases"] + c["init_dictionaries"] + c["chunked_cases"] + c["system_buffer_cases"]
     # distinct by construction: the enumerated parts (small scope, init, 8/16-bit typed values, buffer lengths) never repeat a case;
     # random lookups / random 32-bit values are not counted as distinct
     if kind == "det":
@@ -75,6 +75,8 @@ def finish(total, tier):
         p.append("small-scope enumeration incomplete (%d of 512 dictionaries)" % c["small_scope_dictionaries"])
     if c["init_hook_silent"] or c["init_system_dictionaries"] < 24 or c["init_hook_calls"] < 1000:
         p.append("function-entry hook of the init-once check did not observe the initialisation (%d dictionaries, %d calls seen)" % (c["init_system_dictionaries"], c["init_hook_calls"]))
+    if c["system_buffer_cases"] < 1000:
+        p.append("buffer access to system entries: only %d cases" % c["system_buffer_cases"])
     if c["typed_cases"] < 100000:
         p.append("typed-access cases: %d" % c["typed_cases"])
     return p
